@@ -58,6 +58,34 @@ theorem keyCheck_ok_means (n : Nat) (f g cF cG : List Int) (h : List Nat) (hk : 
   · simp [h1] at hk
   · simpa using h1
 
+/-- … and its two public-key clauses: a key the check accepts satisfies h⋆f = g and h⋆F = G in Z_q[X]/(X^n+1),
+    exactly the hypotheses of `C01.honest_signature_verifies` -/
+theorem keyCheck_ok_relations (d : Nat) (hd : d ≤ 10) (f g cF cG : List Int) (h : List Nat)
+    (lf : f.length = 2 ^ d) (lg : g.length = 2 ^ d) (lF : cF.length = 2 ^ d) (lG : cG.length = 2 ^ d)
+    (lh : h.length = 2 ^ d)
+    (hk : KeygenSkel.keyCheck (2 ^ d) f g cF cG h = "ok") :
+    negacyc (2 ^ d) h (f.map Zq.new) = g.map Zq.new ∧ negacyc (2 ^ d) h (cF.map Zq.new) = cG.map Zq.new := by
+  have hlog : Ntt.log2 (2 ^ d) = d := by simp [Ntt.log2, Nat.log2_two_pow]
+  have hcan : ∀ (l : List Int), ∀ x ∈ l.map Zq.new, x < 12289 := by
+    intro l x hx
+    simp only [List.mem_map] at hx
+    obtain ⟨v, _, rfl⟩ := hx
+    simp only [Zq.new, Zq.q, Gen.q]; omega
+  unfold KeygenSkel.keyCheck at hk
+  simp only [hlog] at hk
+  split at hk
+  · exact absurd hk (by decide)
+  split at hk
+  · exact absurd hk (by decide)
+  split at hk
+  · exact absurd hk (by decide)
+  split at hk
+  · exact absurd hk (by decide)
+  rename_i _ _ h3 h4
+  simp only [ne_eq, Decidable.not_not] at h3 h4
+  exact ⟨public_key_relation d hd h _ _ lh (by simpa using lf) (by simpa using lg) (hcan g) h3,
+         public_key_relation d hd h _ _ lh (by simpa using lF) (by simpa using lG) (hcan cG) h4⟩
+
 /-- non-vacuity: a tiny NTRU quadruple (n = 2, q = 12289) passes the exact check's first clause -/
 example : RingZ.ntruLhs 2 [1, 0] [0, 1] [0, 0] [12289, 0] = [12289, 0] := by decide
 
